@@ -1,6 +1,6 @@
 """E1: loader / resolver.  Parses every module under <repo>/matchingproblems and builds
 module / class / function tables.  Nothing is imported or executed."""
-import ast, hashlib, os
+import ast, re, hashlib, os
 
 PKG = 'matchingproblems'
 
@@ -134,6 +134,117 @@ def normalise_updates(fn):
     return fn
 
 
+def normalise_index_loops(fn):
+    """Source normalisation: `for i in range(len(E)): ... E[i] ...` (loop or comprehension clause; E built from names,
+    attributes and subscripts; neither i nor E[...] assigned inside) reads the elements of E in order: it becomes
+    `for i, e in enumerate(E): ... e ...`, or `for e in E` when i has no other use."""
+    import copy
+
+    def simple(e):
+        return all(isinstance(x, (ast.Name, ast.Attribute, ast.Subscript, ast.Load, ast.Constant)) for x in ast.walk(e))
+
+    def header(it):
+        if isinstance(it, ast.Call) and isinstance(it.func, ast.Name) and it.func.id == 'range' and len(it.args) == 1 and not it.keywords:
+            a = it.args[0]
+            if isinstance(a, ast.Call) and isinstance(a.func, ast.Name) and a.func.id == 'len' and len(a.args) == 1 and simple(a.args[0]):
+                return a.args[0]
+        return None
+
+    counter = [0]
+
+    def rewrite(target, it, scope_nodes):
+        """-> (new target, new iter) or None; scope_nodes are rewritten in place"""
+        E = header(it)
+        if E is None or not isinstance(target, ast.Name):
+            return None
+        i = target.id
+        etxt = ast.unparse(E)
+        roots = {x.id for x in ast.walk(E) if isinstance(x, ast.Name)}
+        hits = []
+        for sc in scope_nodes:
+            for x in ast.walk(sc):
+                if isinstance(x, ast.Name) and x.id == i and isinstance(x.ctx, ast.Store):
+                    return None
+                if isinstance(x, ast.Name) and x.id in roots and isinstance(x.ctx, ast.Store):
+                    return None
+                if isinstance(x, ast.Subscript) and not isinstance(x.ctx, ast.Load) and ast.unparse(x.value) == etxt:
+                    return None
+                if isinstance(x, ast.Call) and isinstance(x.func, ast.Attribute) and ast.unparse(x.func.value) == etxt and x.func.attr in ('append', 'extend', 'insert', 'pop', 'remove', 'sort', 'clear'):
+                    return None
+                if isinstance(x, ast.Subscript) and isinstance(x.ctx, ast.Load) and isinstance(x.slice, ast.Name) and x.slice.id == i and ast.unparse(x.value) == etxt:
+                    hits.append(x)
+        if not hits:
+            return None
+        counter[0] += 1
+        ev = '_%s_at_%s' % (re.sub(r'\W+', '_', etxt).strip('_')[-24:], i)
+
+        class R(ast.NodeTransformer):
+            def visit_Subscript(self, node):
+                if isinstance(node.ctx, ast.Load) and isinstance(node.slice, ast.Name) and node.slice.id == i and ast.unparse(node.value) == etxt:
+                    return ast.copy_location(ast.Name(id=ev, ctx=ast.Load()), node)
+                return self.generic_visit(node)
+        new_scope = [R().visit(sc) for sc in scope_nodes]
+        still = any(isinstance(x, ast.Name) and x.id == i for sc in new_scope for x in ast.walk(sc))
+        if still:
+            nt = ast.Tuple(elts=[ast.Name(id=i, ctx=ast.Store()), ast.Name(id=ev, ctx=ast.Store())], ctx=ast.Store())
+            ni = ast.Call(func=ast.Name(id='enumerate', ctx=ast.Load()), args=[copy.deepcopy(E)], keywords=[])
+        else:
+            nt = ast.Name(id=ev, ctx=ast.Store())
+            ni = copy.deepcopy(E)
+        return nt, ni, new_scope
+
+    if not any(header(getattr(n, 'iter', None)) is not None for n in ast.walk(fn) if isinstance(n, (ast.For, ast.comprehension))):
+        return fn
+    fn = copy.deepcopy(fn)
+
+    class T(ast.NodeTransformer):
+        def visit_For(self, node):
+            self.generic_visit(node)
+            if node.orelse:
+                return node
+            r = rewrite(node.target, node.iter, node.body)
+            if r is not None:
+                node.target, node.iter, node.body = r
+                ast.fix_missing_locations(node)
+            return node
+
+        def comp(self, node, elts):
+            self.generic_visit(node)
+            gens = node.generators
+            for k, g in enumerate(gens):
+                scope = list(g.ifs) + [x for g2 in gens[k + 1:] for x in [g2.iter] + list(g2.ifs)] + elts(node)
+                r = rewrite(g.target, g.iter, scope)
+                if r is not None:
+                    g.target, g.iter, new_scope = r
+                    n_if = len(g.ifs)
+                    g.ifs = new_scope[:n_if]
+                    pos = n_if
+                    for g2 in gens[k + 1:]:
+                        g2.iter = new_scope[pos]
+                        g2.ifs = new_scope[pos + 1:pos + 1 + len(g2.ifs)]
+                        pos += 1 + len(g2.ifs)
+                    self.set_elts(node, new_scope[pos:])
+            ast.fix_missing_locations(node)
+            return node
+
+        def set_elts(self, node, vals):
+            if isinstance(node, ast.DictComp):
+                node.key, node.value = vals
+            else:
+                node.elt = vals[0]
+
+        def visit_ListComp(self, node):
+            return self.comp(node, lambda n: [n.elt])
+        visit_GeneratorExp = visit_ListComp
+        visit_SetComp = visit_ListComp
+
+        def visit_DictComp(self, node):
+            return self.comp(node, lambda n: [n.key, n.value])
+    fn = T().visit(fn)
+    ast.fix_missing_locations(fn)
+    return fn
+
+
 class Func:
     def __init__(self, module, cls, node, relpath):
         self.module = module          # dotted module name
@@ -141,6 +252,7 @@ class Func:
         try:
             node = scalarise_dicts(node)
             node = normalise_updates(node)
+            node = normalise_index_loops(node)
         except Exception:
             pass
         self.node = node              # ast.FunctionDef
